@@ -16,7 +16,7 @@ import (
 	"verif/harness/lib/srv"
 )
 
-const ruleText = "rapid state machine per shard (own name space /tN, own live H.264+AAC streams carrying a per-path marker, own users) against one in-process server with auth enabled: histories of 6..15 steps over {save user (create/update, +-password, +-admin, pull/push from 10 patterns, through POST /api/v1/users or auth.Save), delete user, login (right/wrong password), refresh (good / superseded / access token as refresh)} interleaved with access attempts (credential: good | none | empty | refresh-as-access | superseded | garbage | spoofed internal header; RTSP: good | none | wrong password | the password an update replaced | stale nonce | Basic | unknown user) x path x entry point {RTSP/TCP play, publish (fresh path or replacing a live stream), path switch, user switch; ws-rtsp play, URL switch, publish, announce-then-play; WSP control+data (own / foreign / other-path channel); HTTP-FLV; ws-flv; HLS playlist; HLS segment; 16 management API calls}. Oracle = reference monitor from the rights saved last (refmodel.Permits); observed = marked media bytes / registry identity / API effect. Both directions asserted. Non-trivial = attempt on a (user, action, path) whose reference decision an earlier update or delete of this history changed, or a mid-session switch, or a publish attempt through a WebSocket session; fingerprint = entry, shape, credential, paths, rights of the users involved, expected decision."
+const ruleText = "rapid state machine per shard (own name space /tN, own live H.264+AAC streams carrying a per-path marker, own users) against one in-process server with auth enabled: histories of 6..15 steps over {save user (create/update, +-password, +-admin, pull/push from 10 patterns, through POST /api/v1/users or auth.Save), delete user, login (right/wrong password), refresh (good / superseded / access token as refresh)} interleaved with access attempts (credential: good | none | empty | refresh-as-access | superseded | garbage | spoofed internal header; RTSP: good | none | wrong password | the password an update replaced | stale nonce | Basic | unknown user) x path x entry point {RTSP/TCP play, publish (fresh path or replacing a live stream), path switch, user switch; ws-rtsp play, URL switch, publish, announce-then-play, upgrade URL with a .ts/.flv/.m3u8 suffix; WSP control+data (own / own with a suffixed upgrade URL / foreign / other-path channel); HTTP-FLV; ws-flv; HLS playlist; HLS segment; 16 management API calls}. Oracle = reference monitor from the rights saved last (refmodel.Permits); observed = marked media bytes / registry identity / API effect. Both directions asserted. Non-trivial = attempt on a (user, action, path) whose reference decision an earlier update or delete of this history changed, or a mid-session switch, or a publish attempt through a WebSocket session; fingerprint = entry, shape, credential, paths, rights of the users involved, expected decision."
 
 type hist struct {
 	t     *rapid.T
@@ -545,8 +545,13 @@ func (h *hist) judgePublish(a *attempt, o obs, identity int, identityValid, allo
 func (h *hist) attemptWsRTSP() {
 	u := h.pickUser()
 	kind := rapid.SampledFrom(httpCreds).Draw(h.t, "cred")
-	shape := rapid.SampledFrom([]string{"play", "play", "url-switch", "publish", "publish", "announce-then-play"}).Draw(h.t, "shape")
-	wsPath := h.pickPath(u, "pull", h.sh.live, "wsPath")
+	shape := rapid.SampledFrom([]string{"play", "play", "url-switch", "publish", "publish", "announce-then-play", "suffix"}).Draw(h.t, "shape")
+	var wsPath, suffix string
+	if shape == "suffix" {
+		u, wsPath, suffix = h.pickSuffixTrick(u)
+	} else {
+		wsPath = h.pickPath(u, "pull", h.sh.live, "wsPath")
+	}
 	cred, kind, valid := h.httpCredFor(kind, u)
 	a := &attempt{Entry: "ws-rtsp", Shape: shape, Cred: kind, User: u, User2: u, Path: wsPath}
 	all := append(append([]string{}, h.sh.live...), h.sh.fresh...)
@@ -558,6 +563,12 @@ func (h *hist) attemptWsRTSP() {
 	switch shape {
 	case "play":
 		reqs = []rtspReq{{"DESCRIBE", wsPath, none}, {"SETUP", wsPath, none}, {"PLAY", wsPath, none}}
+	case "suffix":
+		// the upgrade URL carries a file suffix the /streams/ interceptor knows: the
+		// session the server opens is on wsPath; only "no media beyond the pull right"
+		// is judged (the suffixed spelling is not a documented way to ask for wsPath)
+		reqs = []rtspReq{{"DESCRIBE", wsPath, none}, {"SETUP", wsPath, none}, {"PLAY", wsPath, none}}
+		a.Path2 = wsPath + suffix
 	case "url-switch":
 		// the RTSP URL names another stream than the WebSocket path: the session
 		// stays on the path the HTTP side verified
@@ -579,11 +590,11 @@ func (h *hist) attemptWsRTSP() {
 		a.NT = append(a.NT, "ws-publish", "switch-path")
 	}
 	a.Expect = expectWord(allow)
-	c, err := rtspc.DialWS(withToken(h.sh.s.WS(wsPath), cred.Token, cred.HasToken), ioBound, h.sh.wsHeader(cred))
+	c, err := rtspc.DialWS(withToken(h.sh.s.WS(wsPath+suffix), cred.Token, cred.HasToken), ioBound, h.sh.wsHeader(cred))
 	h.record(a)
 	if err != nil {
 		h.note(map[string]any{"op": "access", "attempt": a, "observed": "handshake refused: " + err.Error()})
-		if handshake {
+		if handshake && suffix == "" {
 			h.fail("over-refusal-media", "ws-rtsp: %s holds the pull right %q on %s and the WebSocket handshake was refused: %v", h.names[u], h.m.users[u].Pull, wsPath, err)
 		}
 		return
@@ -591,7 +602,7 @@ func (h *hist) attemptWsRTSP() {
 	o := h.sh.runRTSP(c, reqs, true)
 	c.Close()
 	if reqs[len(reqs)-1].Method == "PLAY" {
-		h.judgeMedia(a, o, u, valid, allow, cur)
+		h.judgeMedia(a, o, u, valid, allow && suffix == "", cur)
 		if o.Published != "" {
 			h.fail("over-grant-publish", "ws-rtsp [%s]: a dialogue that ended in PLAY left a stream registered on %s", shape, o.Published)
 		}
@@ -601,6 +612,36 @@ func (h *hist) attemptWsRTSP() {
 		return
 	}
 	h.judgePublish(a, o, u, valid, allow, cur)
+}
+
+// wsSuffixes are the file suffixes the /streams/ interceptor and handlers know.
+var wsSuffixes = []string{".ts", ".ts", ".flv", ".m3u8"}
+
+// pickSuffixTrick draws the user, stream path and suffix of a WebSocket upgrade
+// whose URL is "{path}{suffix}". Most of the time it aims at the look-alike the
+// HLS segment spelling "{stream}/{seq}.ts" invites: a user whose pull right
+// covers the parent of a live path but not the path itself.
+func (h *hist) pickSuffixTrick(u int) (int, string, string) {
+	suffix := rapid.SampledFrom(wsSuffixes).Draw(h.t, "suffix")
+	type cand struct {
+		u int
+		p string
+	}
+	var cands []cand
+	for x := 0; x < nUsers; x++ {
+		for _, p := range h.sh.live {
+			if parent := p[:strings.LastIndex(p, "/")]; h.m.allow(x, "pull", parent) && !h.m.allow(x, "pull", p) {
+				cands = append(cands, cand{x, p})
+			}
+		}
+	}
+	if len(cands) > 0 && rapid.IntRange(0, 9).Draw(h.t, "aimAtParentRight") < 8 {
+		c := rapid.SampledFrom(cands).Draw(h.t, "parentRight")
+		evid.Class("suffix:right-covers-parent-only" + suffix)
+		return c.u, c.p, suffix
+	}
+	evid.Class("suffix:other" + suffix)
+	return u, h.pickPath(u, "pull", h.sh.live, "wsPath"), suffix
 }
 
 // ---- management API
